@@ -1,5 +1,7 @@
 #include "op.h"
 
+#include <errno.h>
+
 #include <algorithm>
 
 // ------------------------------------------------------------- helpers ----
@@ -274,10 +276,17 @@ void serialiseLinked(const LinkedGeoPolygon *root, std::vector<uint8_t> &o) {
     if (budget <= 0) put64(o, 0xDEADULL);
 }
 
+}  // namespace
+int entryErrnoFor(uint64_t h) {
+    static const int E[] = {0, ERANGE, EDOM, EINTR, ENOMEM, EINVAL, ERANGE, 9999};
+    return E[mix2(h, 0xE44A0ULL) % (sizeof E / sizeof E[0])];
+}
+namespace {
 void doCall(void *vp) {
     CallCtx &c = *(CallCtx *)vp;
     const H3Api &A = *c.api;
     LatLng g0 = {c.d[0], c.d[1]}, g1 = {c.d[2], c.d[3]};
+    errno = c.opts ? c.opts->entryErrno : 0;
     switch (c.fn) {
         case FN_describeH3Error:
             c.sret = A.describeH3Error((H3Error)c.u0);
